@@ -492,6 +492,11 @@ def run_property(prop, tier, seed, kernels, level_text, outside, explanation):
             print('INCONCLUSIVE kernel=%s reason=%s' % (k.name, k.error))
             inconclusive.append({'kernel': k.name, 'reason': k.error})
             continue
+        if not k.harnesses:
+            # a kernel that lost all its harnesses (a selection by name or position that no longer matches) must not pass silently
+            print('INCONCLUSIVE kernel=%s reason=no-harnesses' % k.name)
+            inconclusive.append({'kernel': k.name, 'reason': 'no-harnesses'})
+            continue
         croot = os.path.join(wroot, k.name)
         write_crate(croot, 'k_' + re.sub(r'\W', '_', k.name), k.files, k.cargo_features)
         for h in k.harnesses:
